@@ -1,5 +1,6 @@
 import WK.Proofs.C32_Inv
 import WK.Proofs.C32_Tok
+import WK.Proofs.C32_Conc
 /-
   C32 — Receive-acknowledgement tracking is exact.
 
@@ -390,5 +391,23 @@ example : (outstanding (run (fresh 32 0 100) [.bind (exP 1 98), .bind (exP 2 99)
 /-- the per-session limit rejects a third distinct message but not a re-delivery of a pending one -/
 example : (run (fresh 32 2 100) [.bind (exP 1 0), .bind (exP 2 0), .bind (exP 3 0), .bind (exP 1 0)]).count = 2 := by decide
 end examples
+
+/-! ### concurrency: single-identity operations are movers (WK.Proofs.C32_Conc)
+
+  `kop_local`, `c32_disjoint_ops_commute`, `c32_different_shards_commute`,
+  `c32_serializations_agree`.  Not proved: a micro-step LTS (lock / entry mutation / counter
+  atomic / unlock) with token allocation, for which linearizability holds only up to renaming of
+  the opaque bind tokens; that part stays sampled (concurrent windows + race detector). -/
+
+section conc_examples
+/-- non-vacuity: a finish on (a,1,1) and an ack on (a,2,1) — different sessions, different shards
+    of a 32-shard tracker — commute, and the state really changes -/
+def exS : St := run (fresh 32 0 100) [.bind (exP 1 0), .bind ⟨[97], 2, 1, 0, [], 1, 0⟩]
+example : shardOf exS (KOp.finish (exP 1 0) 1).key.sess ≠ shardOf exS (KOp.ack ⟨[97], 2, 1⟩).key.sess := by decide
+example : runK exS [.finish (exP 1 0) 1, .ack ⟨[97], 2, 1⟩] = runK exS [.ack ⟨[97], 2, 1⟩, .finish (exP 1 0) 1] := by decide
+example : (runK exS [.finish (exP 1 0) 1, .ack ⟨[97], 2, 1⟩]).count = 1 ∧ exS.count = 2 := by decide
+/-- the side condition matters: on the same identity the order is observable -/
+example : runK exS [.cancel (exP 1 0) 1, .finish (exP 1 0) 1] ≠ runK exS [.finish (exP 1 0) 1, .cancel (exP 1 0) 1] := by decide
+end conc_examples
 
 end WK.C32
